@@ -6,6 +6,8 @@ C07.b  records: TransitionT/TaskT copy memberwise (no user-declared copy operati
        payloadSet and placement-copy the `payload` parameter into storage; payload() returns the storage iff payloadSet
 C07.c  [flow] whole-object copy chain request -> pending -> current -> previous (rules/flow_rules.py)
 C07.d  [order] updatePlan forwards the same task's destination and payload
+C07.f  [effect] every request writer replaces the whole request object (assignment operator of the request's own type); nothing else
+       writes the slot (shares C02.a / C02.g)
 C07.e  [cmp] a payload-carrying request is never dropped unseen in favour of an accepted transition that differs from it
        (shares C02.f)
 Not decided: equality of payload bytes for every value (memberwise copy of a byte array is the language's).
@@ -190,9 +192,17 @@ def run(run):
             from rules import c02
             c02.drop_condition(run, F)
             run.relabel('C02.f', 'C07.e')
+            # a request replaces the *whole* outstanding request object (no payload flag / bytes of an earlier request survive in it), and
+            # nothing but the request writers and request processing touches the slot
+            from lint import effects as _eff
+            E2 = _eff.Effects(F)
+            c02.request_writers(run, F, E2)
+            c02.request_slot_writers(run, F, E2, 'C07.f')
+            run.relabel('C02.a', 'C07.f')
             facts.drop(F)
     run.floor('C07.c', 40)
     run.floor('C07.e', 8)
+    run.floor('C07.f', 20)
     run.explanation = (
         'Type-level layout facts (sizeof / offsetof / alignof as computed by clang\'s record layout) for the payload '
         'storage of TransitionT<P> and TaskT<P> over 12 payload types with sizes 1..64 and alignments 1..64, the '
